@@ -573,7 +573,7 @@ func (self *LockManager) AddLock(lock *Lock) *Lock {
 				lock.expriedTime = lock.startTime + int64(lock.command.Expried) + 1
 			}
 		} else {
-			lock.expriedTime = lock.startTime + int64(lock.command.Expried)/1000 + 1
+			lock.expriedTime = lock.startTime + (int64(lock.command.Expried)+999)/1000 + 1
 		}
 
 		if lock.command.ExpriedFlag&protocol.EXPRIED_FLAG_ZEOR_AOF_TIME != 0 && lock.expriedTime-lock.startTime > 5 {
@@ -729,7 +729,7 @@ func (self *LockManager) UpdateLockedLock(lock *Lock, command *protocol.LockComm
 				lock.timeoutTime = lock.startTime + int64(command.Timeout) + 1
 			}
 		} else {
-			lock.timeoutTime = lock.startTime + int64(command.Timeout)/1000 + 1
+			lock.timeoutTime = lock.startTime + (int64(command.Timeout)+999)/1000 + 1
 		}
 
 		if command.ExpriedFlag&protocol.EXPRIED_FLAG_UNLIMITED_EXPRIED_TIME != 0 {
@@ -741,7 +741,7 @@ func (self *LockManager) UpdateLockedLock(lock *Lock, command *protocol.LockComm
 				lock.expriedTime = lock.startTime + int64(command.Expried) + 1
 			}
 		} else {
-			lock.expriedTime = lock.startTime + int64(command.Expried)/1000 + 1
+			lock.expriedTime = lock.startTime + (int64(command.Expried)+999)/1000 + 1
 		}
 
 		if command.TimeoutFlag&protocol.TIMEOUT_FLAG_UPDATE_NO_RESET_TIMEOUT_CHECKED_COUNT == 0 {
@@ -888,7 +888,7 @@ func (self *LockManager) GetOrNewLock(serverProtocol ServerProtocol, command *pr
 				lock.expriedTime = lock.startTime + int64(lock.command.Expried) + 1
 			}
 		} else {
-			lock.expriedTime = lock.startTime + int64(lock.command.Expried)/1000 + 1
+			lock.expriedTime = lock.startTime + (int64(lock.command.Expried)+999)/1000 + 1
 		}
 
 		if command.ExpriedFlag&protocol.EXPRIED_FLAG_ZEOR_AOF_TIME != 0 && lock.expriedTime-lock.startTime > 5 {
@@ -907,7 +907,7 @@ func (self *LockManager) GetOrNewLock(serverProtocol ServerProtocol, command *pr
 			lock.timeoutTime = now + int64(command.Timeout) + 1
 		}
 	} else {
-		lock.timeoutTime = now + int64(command.Timeout)/1000 + 1
+		lock.timeoutTime = now + (int64(command.Timeout)+999)/1000 + 1
 	}
 	lock.timeoutCheckedCount = 1
 	lock.longWaitIndex = 0
